@@ -174,21 +174,21 @@ def update (w : IWorld) (kvs : List (Name × Int)) : Bool × IWorld :=
   let w2 := { w1 with batch := saved }
   (r, if saved then w2 else flush w2)
 
-inductive Simple
+inductive SimpleOp
   | set (k : Key) (v : Int)
   | update (kvs : List (Name × Int))
   deriving Repr, DecidableEq
 
 inductive Op
-  | simple (s : Simple)
-  | batch (body : List Simple)        -- `with param.parameterized.batch_call_watchers(obj): …`
+  | simple (s : SimpleOp)
+  | batch (body : List SimpleOp)        -- `with param.parameterized.batch_call_watchers(obj): …`
   deriving Repr, DecidableEq
 
-def runSimple (w : IWorld) : Simple → Bool × IWorld
+def runSimple (w : IWorld) : SimpleOp → Bool × IWorld
   | .set k v => setKey w k v
   | .update kvs => update w kvs
 
-def runSimples (w : IWorld) : List Simple → Bool × IWorld
+def runSimples (w : IWorld) : List SimpleOp → Bool × IWorld
   | [] => (true, w)
   | s :: rest =>
     match runSimple w s with
